@@ -404,7 +404,8 @@ def call_builtin_method(ip: Interp, obj: SV, name: str, args, kw) -> SV:
         return pattern_method(ip, obj, name, args, kw)
     if k == 'file':
         if name == 'read':
-            return mk_str(text_of(ip.box_source(obj.py)))
+            # the text behind a path or an open stream: the abstract function text_of (contracts/parser.py)
+            return ip.call_abstract(('text_of', 'str', False), [obj.py])
         if name in ('__enter__',):
             return obj
     if k in ('presults', 'pgroup'):
